@@ -652,7 +652,7 @@ def r15_9(ctx) -> None:
 
 def run(ctx) -> None:
     from .common import forwarding_discipline
-    ctx.guard(forwarding_discipline, "R15.7", ['registry', 'header', 'protected', 'obj'], 43)  # arguments are handed on under their own name (generic routing rule, rules/common.py)
+    ctx.guard(forwarding_discipline, "R15.7", ['registry', 'header', 'protected', 'obj', 'strict_check_header', 'header_registry'], 43)  # arguments are handed on under their own name (generic routing rule, rules/common.py)
     from .c04 import r04_4
     ctx.guard_as("R15.6", r04_4)  # what check_header validates is the union of protected, shared unprotected and per-recipient members
     ctx.guard(r15_8)
